@@ -2,6 +2,7 @@ import LLRP.Proofs.ReadSide
 import LLRP.Gen.Schema
 import LLRP.Gen.ReadFacts
 import LLRP.Proofs.SeqReadLoop
+import LLRP.Proofs.SeqDispatchEq
 /-!
 # C10 — a hostile or broken peer cannot crash, wedge or balloon the client
 
@@ -262,5 +263,21 @@ theorem src_read_error_ends_loop (E : Gen.Env_llrp_Client_handleIncoming) (fuel 
     Gen.llrp_Client_handleIncoming_loop1 E (fuel + 1) w false
       = some ((E.Client_readHeader_1 (E.select_1 w (E.Client_done w)).1).1, .new "failed to get next message: %v") :=
   SeqClient.handleIncoming_read_error E fuel w hsel herr
+
+/-! ## the dispatcher model is the source
+
+`Gen.llrp_Client_passToHandler` is the go2seq translation of `Client.passToHandler` (regenerated from `reader.go` on every
+run, the deferred drain translated in place at every return). `SeqGlue.dispEnv cfg i beh` gives its calls their meaning
+over a byte stream: `c.conn` is the remaining stream (`io.ReadFull`, `io.CopyN` and `io.Copy` through the
+`io.LimitReader` consume it; running out of bytes is EOF, which `io.Copy` treats as success), the handlers are those of
+`cfg`, a handler behaves as `beh` says, a send on the reply channel hands the message to the awaiting caller. -/
+
+/-- **Source = model**: for every handler table, header, await-map content (`inMap`), handler behaviour and remaining
+stream, what the translated `passToHandler` delivers (to whom, which bytes, how many taken), discards, allocates,
+consumes from the stream and returns is exactly `ReadSide.dispatch` — the function the theorems above are about. -/
+theorem src_dispatch (cfg : Cfg) (i : Nat) (h : Header) (inMap : Bool) (beh : Beh) (s : Bytes) :
+    SeqGlue.outOf (Gen.llrp_Client_passToHandler (SeqGlue.dispEnv cfg i beh) { stream := s, awaited := inMap } h)
+      = dispatch cfg i h (!unsolicited h.typ && inMap) beh s :=
+  SeqGlue.src_dispatch_eq cfg i h inMap beh s
 
 end LLRP.C10
